@@ -45,7 +45,7 @@ R.contract("PeerConnection.close", params={"self": "PeerConnection", "signal_nod
                     ("node-signalled-iff-asked", "self.g_attn == old(self.g_attn) + ite(signal_node, 1, 0)")],
            ghost_modifies=["self.g_attn"],
            modifies=["self.state", "self._read_thread.stopped", "self._write_thread.stopped"],
-           props=["C05", "C19"])
+           props=["C05", "C19", "C09", "C13"])
 
 R.model("PeerConnection", fields={"g_handled": "Seq[Message]"})
 
